@@ -15,7 +15,7 @@ VARIABLES tid, l
 tvars == <<vars, tid, l>>
 TraceInit == /\ tid \in 1..Len(Traces) /\ l = 1
              /\ cfg = [cap |-> Traces[tid].cap, world |-> Traces[tid].world, att |-> Traces[tid].att]
-             /\ fx \in SUBSET AllFixes /\ mem = {} /\ held = {} /\ st = Idle /\ bad = {} /\ seg = 0
+             /\ fx \in SUBSET AllFixes /\ mem = {} /\ held = {} /\ st = Idle /\ bad = {} /\ seg = [n |-> 0, used |-> FALSE]
 Evs == Traces[tid].ev
 More == l <= Len(Evs)
 Ev == Evs[l]
@@ -25,7 +25,11 @@ Eat == l' = l + 1 /\ UNCHANGED tid
 Stay == UNCHANGED <<l, tid>>
 Kind(out) == CASE out = "ok" -> "result" [] out \in {"err", "unk"} -> "err" [] OTHER -> "cb"
 
-TUnary1 == More /\ Ev.e = "Unary" /\ BeginUnary(Ev.rq, Ev.res, Ev.out) /\ Stay
+\* (the result class of a call that never produces a result is immaterial: the model's canonical one is used)
+CanonRes == CHOOSE r \in ResC : Allowed(cfg.world, r)
+TUnary1 == More /\ Ev.e = "Unary" /\ BeginUnary(Ev.rq, IF Ev.out \in {"err", "unk"} THEN CanonRes ELSE Ev.res, Ev.out) /\ Stay
+\* after the "reqseg" deviation the server's behaviour is undefined: the rest of the trace is accepted as it is
+TChaos == More /\ st.pc = "chaos" /\ UNCHANGED vars /\ Eat
 TUnary2 == SUnary /\ Stay
 TUnary3 == More /\ Ev.e = "Unary" /\ CUnary /\ Ev.r = Kind(Ev.out) /\ Layout(mem') = Tab(Ev) /\ Eat
 TBegin == More /\ Ev.e = "Begin" /\ BeginStream(Ev.k, Ev.ci, Ev.co, Ev.fail, Ev.nout) /\ Eat
@@ -43,11 +47,11 @@ TClose3 == More /\ Ev.e = "Close" /\ st.pc = "s_drain" /\ Layout(mem) = Tab(Ev) 
 TEnd == More /\ Ev.e = "EndCall" /\ EndCall(Ev.rel) /\ Layout(mem') = Tab(Ev) /\ Eat
 TRel == More /\ Ev.e = "ReleaseHeld" /\ ReleaseHeld(Ev.off) /\ Layout(mem') = Tab(Ev) /\ Eat
 TNew == More /\ Ev.e = "NewSegment" /\ NewSegment /\ Layout(mem') = Tab(Ev) /\ Eat
-TraceNext == TNew \/ TUnary1 \/ TUnary2 \/ TUnary3 \/ TBegin \/ TInput1 \/ TInput2 \/ TInput3 \/ TClose1 \/ TClose2 \/ TClose3
+TraceNext == TNew \/ TChaos \/ TUnary1 \/ TUnary2 \/ TUnary3 \/ TBegin \/ TInput1 \/ TInput2 \/ TInput3 \/ TClose1 \/ TClose2 \/ TClose3
              \/ TEnd \/ TRel
 TraceSpec == TraceInit /\ [][TraceNext]_tvars
 
-Done == l = Len(Evs) + 1 /\ st.pc = "idle"
+Done == l = Len(Evs) + 1 /\ st.pc \in {"idle", "chaos"}
 Track == /\ TLCSet(3 * tid, IF TLCGet(3 * tid) < l THEN l ELSE TLCGet(3 * tid))
          /\ TLCSet(3 * tid + 1, TLCGet(3 * tid + 1) \cup (IF Done THEN {fx} ELSE {}))
          /\ TLCSet(3 * tid + 2, TLCGet(3 * tid + 2) \cup {<<fx, c>> : c \in Clauses})
